@@ -1,6 +1,6 @@
 (* Proof/TrajP.v — the assembled loop body (Model/Traj.step): what a pass does to the nuclear
    variables, and exact energy conservation across the hop part of the pass. *)
-From Coq Require Import Reals ZArith List Lra Lia Bool.
+From Coq Require Import Reals ZArith List Lra Lia Bool Setoid Morphisms.
 From MV Require Import Ops RInst Vec Cplx Mat CRing MatP Poisson Hop Hopper Propagate Traj HopP PropagateP Rk4P ReverseP Ehrenfest Cumulative Afssh AfsshP CollapseP.
 Import ListNotations.
 Open Scope R_scope.
@@ -340,4 +340,126 @@ Proof.
   - rewrite Ev2, Ev. apply verlet_reverse_vel; assumption.
   - exact Ea2.
   - rewrite Er2, Er. apply exp_step_reverses; assumption.
+Qed.
+
+(* ---- time reversal of whole runs ---- *)
+(* ---- electronic half: n exp steps forward, then the n conjugate steps in reverse order, give back conj(rho) ---- *)
+Lemma exp_step_meq n lam Cm dt rho rho' : meq n (mget ROps rho) (mget ROps rho') ->
+  meq n (mget ROps (exp_step ROps n lam Cm dt rho)) (mget ROps (exp_step ROps n lam Cm dt rho')).
+Proof. intros H. rewrite (exp_step_spec n lam Cm dt rho), (exp_step_spec n lam Cm dt rho'), H. reflexivity. Qed.
+
+Lemma exp_steps_meq n steps : forall rho rho', meq n (mget ROps rho) (mget ROps rho') ->
+  meq n (mget ROps (exp_steps n steps rho)) (mget ROps (exp_steps n steps rho')).
+Proof.
+  induction steps as [|[[lam Cm] dt] rest IH]; intros rho rho' H; cbn [exp_steps fold_left]; [exact H|].
+  apply IH. apply exp_step_meq. exact H.
+Qed.
+
+Lemma exp_steps_app n a b rho : exp_steps n (a ++ b) rho = exp_steps n b (exp_steps n a rho).
+Proof. unfold exp_steps. apply fold_left_app. Qed.
+
+Definition conj_step (n : nat) (s : list R * mat (T:=R) * R) : list R * mat (T:=R) * R := let '(lam, Cm, dt) := s in (lam, mconj n Cm, dt).
+
+Lemma exp_steps_reverse n steps : forall rho,
+  Forall (fun s => let '(lam, Cm, dt) := s in length lam = n /\ unitary n (mget ROps Cm)) steps ->
+  meq n (mget ROps (exp_steps n (rev (map (conj_step n) steps)) (mconj n (exp_steps n steps rho)))) (fconj (mget ROps rho)).
+Proof.
+  induction steps as [|[[lam Cm] dt] rest IH]; intros rho Hall.
+  - cbn. apply mconj_spec.
+  - pose proof (Forall_inv Hall) as Hh. pose proof (Forall_inv_tail Hall) as Ht. cbn beta iota in Hh. destruct Hh as [Hl HC].
+    cbn [map rev conj_step]. rewrite exp_steps_app. cbn [exp_steps fold_left].
+    change (fold_left _ rest (exp_step ROps n lam Cm dt rho)) with (exp_steps n rest (exp_step ROps n lam Cm dt rho)).
+    set (r1 := exp_step ROps n lam Cm dt rho).
+    (* inner: reversed tail applied to conj(exp_steps rest r1) ~ conj r1 *)
+    pose proof (IH r1 Ht) as E.
+    set (inner := exp_steps n (rev (map (conj_step n) rest)) (mconj n (exp_steps n rest r1))) in *.
+    assert (meq n (mget ROps inner) (mget ROps (mconj n r1))) as E' by (rewrite E; symmetry; apply mconj_spec).
+    rewrite (exp_step_meq n lam (mconj n Cm) dt inner (mconj n r1) E').
+    unfold r1. apply exp_step_reverses; assumption.
+Qed.
+
+(* ---- nuclear half ---- *)
+Fixpoint nuc (m : list R) (dt : R) (fs : list (list R * list R)) (xv : list R * list R) : list R * list R :=
+  match fs with
+  | [] => xv
+  | (f0, f1) :: r => nuc m dt r (advance_position ROps m (fst xv) (snd xv) f0 dt, advance_velocity ROps m (snd xv) f0 f1 dt)
+  end.
+Definition fswap (p : list R * list R) := (snd p, fst p).
+Definition fok (m : list R) (p : list R * list R) := length (fst p) = length m /\ length (snd p) = length m.
+
+Lemma nuc_app m dt a b xv : nuc m dt (a ++ b) xv = nuc m dt b (nuc m dt a xv).
+Proof. revert xv. induction a as [|[f0 f1] a IH]; intros xv; cbn [app nuc]; [reflexivity | apply IH]. Qed.
+
+Lemma nuc_lengths m dt fs : forall xv, Forall (fok m) fs -> length (fst xv) = length m -> length (snd xv) = length m ->
+  length (fst (nuc m dt fs xv)) = length m /\ length (snd (nuc m dt fs xv)) = length m.
+Proof.
+  induction fs as [|[f0 f1] r IH]; intros xv Hf Hx Hv; cbn [nuc]; [split; assumption|].
+  pose proof (Forall_inv Hf) as [H0 H1]. cbn [fst snd] in H0, H1.
+  apply IH; [exact (Forall_inv_tail Hf) | cbn [fst]; apply advance_position_length; assumption | cbn [snd]; apply advance_velocity_length; assumption].
+Qed.
+
+Lemma nuc_reverse m dt fs : forall x v, Forall (fun mi => mi <> 0) m -> Forall (fok m) fs -> length x = length m -> length v = length m ->
+  let '(x1, v1) := nuc m dt fs (x, v) in
+  nuc m dt (rev (map fswap fs)) (x1, map Ropp v1) = (x, map Ropp v).
+Proof.
+  induction fs as [|[f0 f1] r IH]; intros x v Hm Hf Hx Hv; cbn [nuc map rev fst snd]; [reflexivity|].
+  pose proof (Forall_inv Hf) as [H0 H1]. cbn [fst snd] in H0, H1. pose proof (Forall_inv_tail Hf) as Hr.
+  set (xa := advance_position ROps m x v f0 dt). set (va := advance_velocity ROps m v f0 f1 dt).
+  assert (length xa = length m) as Lxa by (apply advance_position_length; assumption).
+  assert (length va = length m) as Lva by (apply advance_velocity_length; assumption).
+  specialize (IH xa va Hm Hr Lxa Lva). cbn [fst snd].
+  destruct (nuc m dt r (xa, va)) as [x1 v1]. rewrite nuc_app, IH. cbn [nuc fswap fst snd]. f_equal.
+  - apply verlet_reverse_pos; assumption.
+  - apply verlet_reverse_vel; assumption.
+Qed.
+
+(* ---- a run without attempts is the nuclear map and the product of exp steps ---- *)
+Definition fpair (a : nat) (d : sdata (T:=R)) : list R * list R := (nth a (eforce (de0 d)) [], nth a (eforce (de1 d)) []).
+
+Lemma run_nohop n m dt poisson (ds : list (sdata (T:=R))) : forall s sf atts,
+  run ROps n m dt poisson ds s = (sf, atts) -> Forall (fun a => a = None) atts ->
+  (px sf, pv sf) = nuc m dt (map (fpair (pact s)) ds) (px s, pv s) /\ pact sf = pact s.
+Proof.
+  induction ds as [|d ds IH]; intros s sf atts H Hn.
+  - cbn in H. injection H as <- <-. split; reflexivity.
+  - cbn [run] in H.
+    destruct (step ROps n m dt poisson (dzeta d) (de0 d) (de1 d) (dlam d) (dC d) s) as [[[s1 W] hp] att] eqn:Es.
+    destruct (run ROps n m dt poisson ds s1) as [sf' atts'] eqn:Er. injection H as <- <-.
+    pose proof (Forall_inv Hn) as Ha. pose proof (Forall_inv_tail Hn) as Hn'. cbn beta in Ha. subst att.
+    destruct (step_nuclear n m dt poisson _ _ _ _ _ s s1 W hp None Es) as (Ex & _ & _ & En). destruct (En eq_refl) as [Ev Ea].
+    destruct (IH s1 sf' atts' Er Hn') as [A B]. split; [|rewrite B; exact Ea].
+    rewrite A, Ea. cbn [map nuc fpair fst snd]. rewrite Ex, Ev. reflexivity.
+Qed.
+
+Definition rd (n : nat) (d : sdata (T:=R)) : sdata (T:=R) := mkSD (dzeta d) (de1 d) (de0 d) (dlam d) (mconj n (dC d)).
+
+(* ---- the statement: N passes without attempts, then the N passes of the reversed problem ---- *)
+Theorem run_reversible n m dt poisson (ds : list (sdata (T:=R))) (s sf s2 : tstate (T:=R)) atts atts2 :
+  run ROps n m dt poisson ds s = (sf, atts) -> Forall (fun a => a = None) atts ->
+  run ROps n m dt poisson (rev (map (rd n) ds)) (mkT (px sf) (map Ropp (pv sf)) (mconj n (prho sf)) (pact sf) (ptime sf)) = (s2, atts2) ->
+  Forall (fun a => a = None) atts2 ->
+  Forall (fun mi => mi <> 0) m -> length (px s) = length m -> length (pv s) = length m ->
+  Forall (fun d => fok m (fpair (pact s) d) /\ length (dlam d) = n /\ unitary n (mget ROps (dC d))) ds ->
+  px s2 = px s /\ pv s2 = map Ropp (pv s) /\ pact s2 = pact s
+  /\ meq n (mget ROps (prho s2)) (fconj (mget ROps (prho s))).
+Proof.
+  intros Hf Hn Hb Hn2 Hm Hx Hv Hd.
+  destruct (run_nohop n m dt poisson ds s sf atts Hf Hn) as [Nf Af].
+  destruct (run_nohop n m dt poisson _ _ s2 atts2 Hb Hn2) as [Nb Ab]. cbn [px pv pact] in Nb, Ab.
+  destruct (run_invariants n m dt poisson ds s sf atts Hf) as (_ & _ & Rf & _).
+  destruct (run_invariants n m dt poisson _ _ s2 atts2 Hb) as (_ & _ & Rb & _). cbn [prho] in Rb.
+  assert (Forall (fok m) (map (fpair (pact s)) ds)) as Hfok.
+  { apply Forall_forall. intros p Hp. apply in_map_iff in Hp. destruct Hp as [d [<- Hin]]. apply (proj1 (Forall_forall _ _) Hd d Hin). }
+  pose proof (nuc_reverse m dt (map (fpair (pact s)) ds) (px s) (pv s) Hm Hfok Hx Hv) as NR.
+  rewrite <- Nf in NR.
+  assert (map (fpair (pact sf)) (rev (map (rd n) ds)) = rev (map fswap (map (fpair (pact s)) ds))) as Emap.
+  { rewrite Af, map_rev, !map_map. f_equal. }
+  rewrite Emap, NR in Nb. injection Nb as Ex Ev.
+  split; [exact Ex|]. split; [exact Ev|]. split; [rewrite Ab; exact Af|].
+  rewrite Rb, Rf.
+  assert (map (fun d : sdata => (dlam d, dC d, dt)) (rev (map (rd n) ds)) = rev (map (conj_step n) (map (fun d : sdata => (dlam d, dC d, dt)) ds))) as Es.
+  { rewrite map_rev, !map_map. f_equal. }
+  rewrite Es. apply exp_steps_reverse.
+  apply Forall_forall. intros st Hst. apply in_map_iff in Hst. destruct Hst as [d [<- Hin]]. cbn beta iota.
+  apply (proj2 (proj1 (Forall_forall _ _) Hd d Hin)).
 Qed.
